@@ -62,6 +62,12 @@ struct Case {
     hints: Vec<(Vec<Id>, Vec<PSeg>)>,
     entry: Vec<Id>,
     probes: Vec<(Vec<Id>, Sp)>,
+    /// optimisation level the entry is compiled at (modules are always compiled at Standard)
+    opt: u32,
+    /// REPL session: when non-empty the case is a sequence of inputs run on one VM from the tree's
+    /// root directory (there is no entry file); sprobes = (input index, spelling)
+    inputs: Vec<Module>,
+    sprobes: Vec<(usize, Sp)>,
 }
 #[derive(Clone, Debug, PartialEq)]
 enum PSeg {
@@ -224,18 +230,24 @@ fn materialise(root: &Path, c: &Case, probe: Option<&(Vec<Id>, Sp)>) {
 
 // ------------------------------------------------------------------------------------------ running
 #[cfg(vbxq_aelys_lang_verif)]
-fn run_entry(file: &Path) -> (u8, String, String) {
+fn run_entry(file: &Path, opt: u32) -> (u8, String, String) {
     use aelys_common::error::{AelysError, CompileErrorKind};
     use aelys_runtime::verif;
     verif::sink_install();
     verif::budget_set(20_000_000);
     let f = file.to_path_buf();
     let r = guarded(std::panic::AssertUnwindSafe(move || {
-        aelys_driver::run_file_full(&f, aelys_runtime::VmConfig::default(), Vec::new(), aelys_opt::OptimizationLevel::Standard)
+        aelys_driver::run_file_full(&f, aelys_runtime::VmConfig::default(), Vec::new(), hxlib::runner::opt_level(opt))
             .map(|_| ())
     }));
     let out = verif::sink_take();
     verif::budget_set(u64::MAX);
+    classify(r, out)
+}
+
+#[cfg(vbxq_aelys_lang_verif)]
+fn classify(r: Result<Result<(), aelys_common::error::AelysError>, String>, out: String) -> (u8, String, String) {
+    use aelys_common::error::{AelysError, CompileErrorKind};
     match r {
         Ok(Ok(())) => (0, out, String::new()),
         Ok(Err(AelysError::Compile(e))) => {
@@ -288,7 +300,7 @@ fn observe(c: &Case, n: usize) -> Obs {
     std::fs::create_dir_all(&root).unwrap();
     materialise(&root, c, None);
     let entry = file_on_disk(&root, &c.entry);
-    let (code, out, detail) = run_entry(&entry);
+    let (code, out, detail) = run_entry(&entry, c.opt);
     let mut probes = Vec::new();
     for pr in &c.probes {
         // rewrite only the probed file, run, restore
@@ -298,7 +310,7 @@ fn observe(c: &Case, n: usize) -> Obs {
                 let (path, m) = &c.files[idx];
                 let f = file_on_disk(&root, path);
                 std::fs::write(&f, source_of(idx, path, m, Some(&pr.1))).unwrap();
-                let (_, pout, _) = run_entry(&entry);
+                let (_, pout, _) = run_entry(&entry, c.opt);
                 probes.push(probe_values(&pout));
                 std::fs::write(&f, source_of(idx, path, m, None)).unwrap();
             }
@@ -307,6 +319,136 @@ fn observe(c: &Case, n: usize) -> Obs {
     }
     let _ = std::fs::remove_dir_all(&root);
     Obs { code, trace: trace_of(&out), detail, probes }
+}
+
+// ------------------------------------------------------------------------------------------ REPL sessions
+fn input_source(k: usize, m: &Module, probe: Option<&Sp>) -> String {
+    let mut s = String::new();
+    for i in &m.imports {
+        match &i.form {
+            Form::Module => writeln!(s, "needs {}", dotted(&i.path)).unwrap(),
+            Form::Alias(a) => writeln!(s, "needs {} as {}", dotted(&i.path), nm(*a)).unwrap(),
+            Form::Symbols(l) => writeln!(s, "needs {} from {}", l.iter().map(|&x| nm(x)).collect::<Vec<_>>().join(", "), dotted(&i.path)).unwrap(),
+            Form::Wildcard => writeln!(s, "needs {}.*", dotted(&i.path)).unwrap(),
+        }
+    }
+    writeln!(s, "println(\"I:in{}\")", k).unwrap();
+    if let Some(sp) = probe {
+        s.push_str("println(\"P\")\n");
+        writeln!(s, "println({})", spell(sp)).unwrap();
+    }
+    s
+}
+
+/// one session on a fresh VM; per input (code, printed output); stops after the first failing input
+#[cfg(vbxq_aelys_lang_verif)]
+fn run_session(c: &Case, probe: Option<&(usize, Sp)>) -> Vec<(u8, String)> {
+    use aelys_runtime::verif;
+    let mut res = Vec::new();
+    let mut vm = match aelys_driver::new_vm_with_config(aelys_runtime::VmConfig::default(), Vec::new()) {
+        Ok(vm) => vm,
+        Err(_) => return vec![(10, String::new())],
+    };
+    for (k, m) in c.inputs.iter().enumerate() {
+        let pr = match probe {
+            Some((pk, sp)) if *pk == k => Some(sp),
+            _ => None,
+        };
+        let src = input_source(k, m, pr);
+        verif::sink_install();
+        verif::budget_set(20_000_000);
+        let r = guarded(std::panic::AssertUnwindSafe(|| {
+            aelys_driver::run_with_vm_and_opt(&mut vm, &src, "<repl>", hxlib::runner::opt_level(1)).map(|_| ())
+        }));
+        let out = verif::sink_take();
+        verif::budget_set(u64::MAX);
+        let (code, out, _) = classify(r, out);
+        res.push((code, out));
+        if code != 0 {
+            break;
+        }
+    }
+    res
+}
+
+struct SObs {
+    inputs: Vec<(u8, Vec<String>)>,
+    probes: Vec<Vec<String>>,
+}
+
+/// Sessions resolve imports from the working directory, which is process-wide: run serially.
+#[cfg(vbxq_aelys_lang_verif)]
+fn observe_session(c: &Case, n: usize) -> SObs {
+    let root = PathBuf::from(format!("/verif/.cache/mod-{}-s{}", std::process::id(), n));
+    let _ = std::fs::remove_dir_all(&root);
+    std::fs::create_dir_all(&root).unwrap();
+    materialise(&root, c, None);
+    let back = std::env::current_dir().ok();
+    std::env::set_current_dir(&root).unwrap();
+    let base = run_session(c, None);
+    let inputs = base.iter().map(|(code, out)| (*code, trace_of(out))).collect();
+    let mut probes = Vec::new();
+    for pr in &c.sprobes {
+        let r = run_session(c, Some(pr));
+        let vals = r.get(pr.0).map(|(_, out)| probe_values(out)).unwrap_or_default();
+        probes.push(vals);
+    }
+    if let Some(b) = back {
+        let _ = std::env::set_current_dir(b);
+    }
+    let _ = std::fs::remove_dir_all(&root);
+    SObs { inputs, probes }
+}
+
+fn coq_files(c: &Case) -> String {
+    let fs = coq_list(&c.files, |(p, m)| {
+        format!(
+            "({}, Build_module {} {})",
+            coq_ids(p),
+            coq_list(&m.imports, |i| format!("Build_import {} {}", coq_ids(&i.path), coq_form(&i.form))),
+            coq_list(&m.defs, |d| format!("Build_def {} {} {}", d.name, d.is_pub, is_fn(d.name)))
+        )
+    });
+    let links = coq_list(&c.links, |(a, b)| format!("({}, {})", coq_ids(a), coq_ids(b)));
+    let hints = coq_list(&c.hints, |(n, ex)| {
+        format!(
+            "({}, {})",
+            coq_ids(n),
+            coq_list(ex, |p| match p {
+                PSeg::Seg(x) => format!("PS {}", x),
+                PSeg::Up => "PUp".to_string(),
+                PSeg::Cur => "PCur".to_string(),
+            })
+        )
+    });
+    format!("(mkfs {} {} {})", fs, links, hints)
+}
+
+fn coq_squery(c: &Case) -> String {
+    format!(
+        "Build_sq {} {} {}",
+        coq_files(c),
+        coq_list(&c.inputs, |m| format!(
+            "Build_module {} []",
+            coq_list(&m.imports, |i| format!("Build_import {} {}", coq_ids(&i.path), coq_form(&i.form)))
+        )),
+        coq_list(&c.sprobes, |(k, s)| format!("({}%nat, {})", k, coq_sp(s)))
+    )
+}
+
+fn coq_sobs(o: &SObs) -> String {
+    format!(
+        "(({}, {}) : sobs)",
+        coq_list(&o.inputs, |(code, tr)| format!(
+            "({}, {})",
+            code,
+            coq_list(tr, |t| match t.strip_prefix("in") {
+                Some(k) => format!("[{}; {}]", ENTRY, k),
+                None => unfid(t).map(|p| coq_ids(&p)).unwrap_or("[777]".into()),
+            })
+        )),
+        coq_list(&o.probes, |vs| coq_list(vs, |v| coq_value(v)))
+    )
 }
 
 // ------------------------------------------------------------------------------------------ rendering
@@ -331,30 +473,9 @@ fn coq_sp(s: &Sp) -> String {
     }
 }
 fn coq_query(c: &Case) -> String {
-    let fs = coq_list(&c.files, |(p, m)| {
-        format!(
-            "({}, Build_module {} {})",
-            coq_ids(p),
-            coq_list(&m.imports, |i| format!("Build_import {} {}", coq_ids(&i.path), coq_form(&i.form))),
-            coq_list(&m.defs, |d| format!("Build_def {} {}", d.name, d.is_pub))
-        )
-    });
-    let links = coq_list(&c.links, |(a, b)| format!("({}, {})", coq_ids(a), coq_ids(b)));
-    let hints = coq_list(&c.hints, |(n, ex)| {
-        format!(
-            "({}, {})",
-            coq_ids(n),
-            coq_list(ex, |p| match p {
-                PSeg::Seg(x) => format!("PS {}", x),
-                PSeg::Up => "PUp".to_string(),
-                PSeg::Cur => "PCur".to_string(),
-            })
-        )
-    });
-    let fs = format!("(mkfs {} {} {})", fs, links, hints);
     format!(
         "Build_mq {} {} {}",
-        fs,
+        coq_files(c),
         coq_ids(&c.entry),
         coq_list(&c.probes, |(f, s)| format!("({}, {})", coq_ids(f), coq_sp(s)))
     )
@@ -395,6 +516,27 @@ fn text_of(c: &Case) -> String {
             write!(s, ";def {} {}", if d.is_pub { "pub" } else { "priv" }, nm(d.name)).unwrap();
         }
     }
+    if c.opt != 2 {
+        write!(s, ";opt {}", c.opt).unwrap();
+    }
+    for m in &c.inputs {
+        write!(s, ";input").unwrap();
+        for i in &m.imports {
+            let path = i.path.iter().map(|&x| nm(x)).collect::<Vec<_>>().join(".");
+            match &i.form {
+                Form::Module => write!(s, ";import module {}", path).unwrap(),
+                Form::Alias(a) => write!(s, ";import alias {} {}", path, nm(*a)).unwrap(),
+                Form::Symbols(l) => write!(s, ";import symbols {} {}", path, l.iter().map(|&x| nm(x)).collect::<Vec<_>>().join(",")).unwrap(),
+                Form::Wildcard => write!(s, ";import wildcard {}", path).unwrap(),
+            }
+        }
+    }
+    for (k, sp) in &c.sprobes {
+        match sp {
+            Sp::Bare(n) => write!(s, ";sprobe {} bare {}", k, nm(*n)).unwrap(),
+            Sp::Qual(q, n) => write!(s, ";sprobe {} qual {} {}", k, nm(*q), nm(*n)).unwrap(),
+        }
+    }
     for (a, b) in &c.links {
         write!(s, ";link {} {}", fid(a), fid(b)).unwrap();
     }
@@ -411,7 +553,8 @@ fn text_of(c: &Case) -> String {
 }
 
 fn parse_case(text: &str) -> Option<Case> {
-    let mut c = Case { label: String::new(), files: Vec::new(), links: Vec::new(), hints: Vec::new(), entry: Vec::new(), probes: Vec::new() };
+    let mut c = Case { label: String::new(), files: Vec::new(), links: Vec::new(), hints: Vec::new(), entry: Vec::new(), probes: Vec::new(), opt: 2, inputs: Vec::new(), sprobes: Vec::new() };
+    let mut in_input = false;
     for item in text.split(|ch| ch == ';' || ch == '\n') {
         let w: Vec<&str> = item.split_whitespace().collect();
         if w.is_empty() || w[0].starts_with('#') {
@@ -421,7 +564,24 @@ fn parse_case(text: &str) -> Option<Case> {
         match w[0] {
             "label" => c.label = w.get(1).unwrap_or(&"").to_string(),
             "entry" => c.entry = unfid(w.get(1)?)?,
-            "file" => c.files.push((unfid(w.get(1)?)?, Module::default())),
+            "file" => {
+                in_input = false;
+                c.files.push((unfid(w.get(1)?)?, Module::default()))
+            }
+            "input" => {
+                in_input = true;
+                c.inputs.push(Module::default())
+            }
+            "opt" => c.opt = w.get(1)?.parse().ok()?,
+            "sprobe" => {
+                let k: usize = w.get(1)?.parse().ok()?;
+                let sp = match *w.get(2)? {
+                    "bare" => Sp::Bare(unnm(w.get(3)?)?),
+                    "qual" => Sp::Qual(unnm(w.get(3)?)?, unnm(w.get(4)?)?),
+                    _ => return None,
+                };
+                c.sprobes.push((k, sp));
+            }
             "import" => {
                 let path = dots(w.get(2)?)?;
                 let form = match *w.get(1)? {
@@ -431,7 +591,11 @@ fn parse_case(text: &str) -> Option<Case> {
                     "wildcard" => Form::Wildcard,
                     _ => return None,
                 };
-                c.files.last_mut()?.1.imports.push(Import { path, form });
+                if in_input {
+                    c.inputs.last_mut()?.imports.push(Import { path, form });
+                } else {
+                    c.files.last_mut()?.1.imports.push(Import { path, form });
+                }
             }
             "def" => {
                 let is_pub = *w.get(1)? == "pub";
@@ -472,7 +636,7 @@ impl B {
         self.files[from].1.imports.push(Import { path, form });
     }
     fn done(self, label: &str) -> Case {
-        Case { label: label.to_string(), files: self.files, links: self.links, hints: self.hints, entry: vec![ENTRY], probes: Vec::new() }
+        Case { label: label.to_string(), files: self.files, links: self.links, hints: self.hints, entry: vec![ENTRY], probes: Vec::new(), opt: 2, inputs: Vec::new(), sprobes: Vec::new() }
     }
 }
 
@@ -813,7 +977,7 @@ fn structured(rng: &mut Rng, out: &mut Vec<Case>) {
 }
 impl B {
     fn clone_case(&self, label: &str) -> Case {
-        Case { label: label.to_string(), files: self.files.clone(), links: self.links.clone(), hints: self.hints.clone(), entry: vec![ENTRY], probes: Vec::new() }
+        Case { label: label.to_string(), files: self.files.clone(), links: self.links.clone(), hints: self.hints.clone(), entry: vec![ENTRY], probes: Vec::new(), opt: 2, inputs: Vec::new(), sprobes: Vec::new() }
     }
 }
 
@@ -1007,6 +1171,77 @@ fn random_case(rng: &mut Rng, n: usize) -> Case {
 /// probes: for every import of every file, the names defined by files whose stem matches one of the
 /// last two path segments, spelled bare and qualified by the last segment / the alias / the segment
 /// before the last / a qualifier that is no alias at all
+/// turn a tree into a REPL session: the entry's imports are spread over 2-4 inputs and later inputs
+/// import again, under another form, modules that earlier inputs already loaded
+fn session_from(rng: &mut Rng, mut c: Case, n: usize) -> Case {
+    let entry_imports: Vec<Import> = c.files[0].1.imports.clone();
+    c.files.remove(0);
+    let k = 2 + rng.below(3) as usize;
+    let mut inputs: Vec<Module> = (0..k).map(|_| Module::default()).collect();
+    for (j, imp) in entry_imports.iter().enumerate() {
+        let at = if j < k { j } else { rng.below(k as u64) as usize };
+        inputs[at].imports.push(imp.clone());
+    }
+    for at in 1..k {
+        let earlier: Vec<Import> = inputs[..at].iter().flat_map(|m| m.imports.iter().cloned()).collect();
+        let extra = rng.below(3);
+        for _ in 0..extra {
+            if earlier.is_empty() {
+                break;
+            }
+            let mut imp = rng.pick(&earlier).clone();
+            if imp.path.first() == Some(&STD) {
+                continue;
+            }
+            // the file this path means, as seen from the root directory, to pick a sensible form
+            let defs = c.files.iter().find(|(p, _)| *p == imp.path).map(|(_, m)| m.defs.clone()).unwrap_or_default();
+            let al = 73 + rng.below(6) as Id;
+            imp.form = match rand_form(rng, &defs, al, true) {
+                Form::Module => Form::Alias(73 + at as Id), // a second whole-module import would be a SymbolConflict only within one input; across inputs it is fine, keep some
+                f => f,
+            };
+            if rng.chance(1, 3) {
+                imp.form = Form::Module;
+            }
+            inputs[at].imports.push(imp);
+        }
+    }
+    // probes: every spelling of every definition that any input could name
+    let mut all: BTreeSet<(usize, Sp)> = BTreeSet::new();
+    for at in 0..k {
+        for imp in inputs[..=at].iter().flat_map(|m| m.imports.iter()) {
+            if imp.path.first() == Some(&STD) || imp.path.is_empty() {
+                continue;
+            }
+            let last = *imp.path.last().unwrap();
+            let mut quals = vec![last, BOGUS];
+            if let Form::Alias(a) = &imp.form {
+                quals.push(*a);
+            }
+            for (_, tm) in &c.files {
+                for d in &tm.defs {
+                    all.insert((at, Sp::Bare(d.name)));
+                    for &q in &quals {
+                        all.insert((at, Sp::Qual(q, d.name)));
+                    }
+                }
+            }
+        }
+    }
+    let mut v: Vec<(usize, Sp)> = all.into_iter().collect();
+    for i in (1..v.len()).rev() {
+        let j = rng.below(i as u64 + 1) as usize;
+        v.swap(i, j);
+    }
+    v.truncate(10);
+    v.sort();
+    c.label = format!("session{}-{}", n, c.label);
+    c.inputs = inputs;
+    c.sprobes = v;
+    c.probes.clear();
+    c
+}
+
 fn auto_probes(c: &mut Case, rng: &mut Rng, max: usize) {
     let mut all: BTreeSet<(Vec<Id>, Sp)> = BTreeSet::new();
     for (fp, m) in &c.files {
@@ -1101,27 +1336,79 @@ fn main() {
         }
         for n in 0..nrandom {
             let mut c = random_case(&mut rng, n);
+            c.opt = (n % 4) as u32;
             auto_probes(&mut c, &mut rng, maxp);
             cases.push(c);
         }
+        let nsessions = arg_u64("--sessions", (nrandom / 6) as u64) as usize;
+        for n in 0..nsessions {
+            let c = random_case(&mut rng, 100_000 + n);
+            if c.label.ends_with("f4") || c.files[0].1.imports.is_empty() {
+                continue;
+            }
+            cases.push(session_from(&mut rng, c, n));
+        }
     }
-    let handle = std::thread::Builder::new()
+    let (sessions, cases): (Vec<Case>, Vec<Case>) = cases.into_iter().partition(|c| !c.inputs.is_empty());
+    // cases are independent (own directory, own VM, thread-local hooks): run them on worker threads,
+    // print in case order
+    let nthreads = arg_u64("--threads", 8).max(1) as usize;
+    let cases = std::sync::Arc::new(cases);
+    let next = std::sync::Arc::new(std::sync::atomic::AtomicUsize::new(0));
+    let results: std::sync::Arc<std::sync::Mutex<Vec<Option<String>>>> =
+        std::sync::Arc::new(std::sync::Mutex::new(vec![None; cases.len()]));
+    let mut handles = Vec::new();
+    for _ in 0..nthreads {
+        let cases = cases.clone();
+        let next = next.clone();
+        let results = results.clone();
+        handles.push(
+            std::thread::Builder::new()
+                .stack_size(256 << 20)
+                .spawn(move || loop {
+                    let n = next.fetch_add(1, std::sync::atomic::Ordering::SeqCst);
+                    if n >= cases.len() {
+                        break;
+                    }
+                    let c = &cases[n];
+                    let o = observe(c, n);
+                    let raw = format!(
+                        "code={};trace={};probes={};detail={}",
+                        o.code,
+                        o.trace.join(","),
+                        o.probes.iter().map(|v| v.join("|")).collect::<Vec<_>>().join(","),
+                        // up to the first quoted name: which of several conflicting symbols is named
+                        // depends on HashMap iteration order
+                        hxlib::runner::esc(o.detail.split('\'').next().unwrap_or("")).replace(';', ",")
+                    );
+                    let line = format!("{}\t{}\t{}\t{}", coq_query(c), coq_obs(&o), text_of(c), raw);
+                    results.lock().unwrap()[n] = Some(line);
+                })
+                .unwrap(),
+        );
+    }
+    for h in handles {
+        h.join().unwrap();
+    }
+    for line in results.lock().unwrap().iter() {
+        println!("{}", line.as_ref().expect("case not run"));
+    }
+    // REPL sessions change the working directory: one at a time, on a big stack
+    let h = std::thread::Builder::new()
         .stack_size(256 << 20)
         .spawn(move || {
-            for (n, c) in cases.iter().enumerate() {
-                let o = observe(c, n);
+            for (n, c) in sessions.iter().enumerate() {
+                let o = observe_session(c, n);
                 let raw = format!(
-                    "code={};trace={};probes={};detail={}",
-                    o.code,
-                    o.trace.join(","),
-                    o.probes.iter().map(|v| v.join("|")).collect::<Vec<_>>().join(","),
-                    hxlib::runner::esc(&o.detail).replace(';', ",")
+                    "inputs={};probes={}",
+                    o.inputs.iter().map(|(code, tr)| format!("{}:{}", code, tr.join(","))).collect::<Vec<_>>().join("#"),
+                    o.probes.iter().map(|v| v.join("|")).collect::<Vec<_>>().join(",")
                 );
-                println!("{}\t{}\t{}\t{}", coq_query(c), coq_obs(&o), text_of(c), raw);
+                println!("{}\t{}\t{}\t{}", coq_squery(c), coq_sobs(&o), text_of(c), raw);
             }
         })
         .unwrap();
-    handle.join().unwrap();
+    h.join().unwrap();
 }
 
 #[cfg(not(vbxq_aelys_lang_verif))]
